@@ -225,6 +225,16 @@ Definition mon_reg_step (prop : Z) (step : nat) (o : rop) (prev cur : robs) (t :
            (* a refused registration leaves the maps alone *)
            if Nat.eqb (length (ro_val_ext prev)) (length (ro_val_ext cur)) && Nat.eqb (length (ro_orch_val prev)) (length (ro_orch_val cur)) then []
            else [rviol k_c17_unauth step [VB v; VI 1]]
+     | RConfirm c signer index claimed sg =>
+         (* a confirmation sent by a registered orchestrator is attributed to the validator that
+            registered it: the accepted claimed signer is THAT validator's address *)
+         if ro_code cur =? 0 then
+           match resolve prev t c signer with
+           | Some v => if beqb (match lookup3 (ro_val_ext prev) c v with Some a => a | None => zero20 end) claimed then []
+                       else [rviol k_c17_orch step [VB c; VB signer; VB v]]
+           | None => [rviol k_c17_orch step [VB c; VB signer]]
+           end
+         else []
      | _ => []
      end
      ++
